@@ -248,11 +248,17 @@ type KVEncCase struct {
 	Vals  []string `json:"vals"`
 	Flip  int      `json:"flip"`
 	Wrong bool     `json:"wrong"`
+	// FailPut > 0: the FailPut-th PUT of a node object of the encrypted run fails once with
+	// a transport error; the application starts over until a commit succeeds
+	FailPut int `json:"fail_put,omitempty"`
 }
 
 func genKVEncCase(t *rapid.T) KVEncCase {
 	c := KVEncCase{Pass: hex.EncodeToString(rapid.SliceOfN(rapid.Byte(), 1, 20).Draw(t, "pass")),
 		BF: rapid.SampledFrom([]int{2, 3, 4, 16, 4096}).Draw(t, "bf"), Flip: rapid.IntRange(0, 1<<20).Draw(t, "flip"), Wrong: rapid.Bool().Draw(t, "wrong")}
+	if rapid.IntRange(0, 2).Draw(t, "withfault") == 0 {
+		c.FailPut = rapid.IntRange(1, 6).Draw(t, "failput")
+	}
 	n := rapid.IntRange(1, 24).Draw(t, "n")
 	seen := map[string]bool{}
 	for len(c.Keys) < n {
@@ -326,7 +332,37 @@ func runKVEnc(c KVEncCase, o *Obs) error {
 	}
 	// encrypted
 	st := fakes3.New()
-	if err := kvFill(st, c.BF, kv.V1NodeEncryptor(pass), c, 500); err != nil {
+	if c.FailPut > 0 {
+		// one transient failure of a node PUT: whatever the commit reports, nothing that
+		// reaches the bucket may be plaintext; the application starts over
+		nput, hit := 0, false
+		st.Intercept = func(q *fakes3.Req) error {
+			if q.Op == "PUT" && strings.Contains(q.Key, "/node/") {
+				nput++
+				if nput == c.FailPut {
+					hit = true
+					return fakes3.ErrInjected
+				}
+			}
+			return nil
+		}
+		err := kvFill(st, c.BF, kv.V1NodeEncryptor(pass), c, 500)
+		st.Intercept = nil
+		if hit {
+			o.Class("node-put-failed-once")
+		}
+		if err != nil {
+			if !hit {
+				return err
+			}
+			for _, k := range st.Keys("enc/root/") { // (none expected: the commit failed)
+				st.Remove(k)
+			}
+			if err := kvFill(st, c.BF, kv.V1NodeEncryptor(pass), c, 500); err != nil {
+				return fmt.Errorf("starting over after a failed commit: %v", err)
+			}
+		}
+	} else if err := kvFill(st, c.BF, kv.V1NodeEncryptor(pass), c, 500); err != nil {
 		return err
 	}
 	if n := markersIn(st, c); n > 0 {
